@@ -333,4 +333,251 @@ dispatch_harness!(#[kani::unwind(6)] u8d_reference_plain, u8_dispatch(1, false, 
 dispatch_harness!(#[kani::unwind(6)] u8d_dereference_rc, u8_dispatch(2, true, false));
 dispatch_harness!(#[kani::unwind(6)] u8d_dereference_plain, u8_dispatch(2, false, false));
 
+
+// ================================================================== U15: index/value plan composition in HashColumn
+// write_reindex_plan_locked, write_plan_new, write_plan_existing with their callees replaced by contracts:
+//   IndexTable::write_insert_plan  -> Written | NeedReindex (page full / address overflow), contract = U3 lifted through the log view
+//   IndexTable::write_remove_plan  -> Written | Skipped                                   , contract = U3
+//   HashColumn::trigger_reindex    -> same locks, a fresh larger current index (identity on the guards here)
+//   Column::write_new_value_plan / write_existing_value_plan -> U6 / U8d
+//   HashColumn::contains_partial_key_with_address -> U13
+pub(crate) static mut IX_N: usize = 0;
+pub(crate) static mut IX_KIND: [u8; 6] = [0; 6]; // 1 insert, 2 remove
+pub(crate) static mut IX_TABLE: [u16; 6] = [0; 6];
+pub(crate) static mut IX_ADDR: [u64; 6] = [0; 6];
+pub(crate) static mut IX_SUB: [i64; 6] = [0; 6]; // -1 = None
+pub(crate) static mut IX_KEY0: [u8; 6] = [0; 6];
+pub(crate) static mut IX_RET_WRITTEN: [bool; 6] = [false; 6];
+pub(crate) static mut IX_NEED: usize = 0; // how many further insert attempts answer NeedReindex
+pub(crate) static mut TRIG_N: usize = 0;
+pub(crate) static mut NEW_ADDR: u64 = 0;
+pub(crate) static mut CONTAINS: bool = false;
+pub(crate) static mut EXIST_OUT: u8 = 0; // 0: (Some(Written),None) 1: (Some(Skipped),None) 2: (None,Some(addr)) 3: (None,None)
+pub(crate) fn stub_ix_insert(t: &IndexTable, key: &Key, address: Address, sub_index: Option<usize>, _log: &mut LogWriter) -> Result<PlanOutcome> {
+	unsafe {
+		assert!(IX_N < 6, "verif: too many index operations");
+		IX_KIND[IX_N] = 1;
+		IX_TABLE[IX_N] = t.id.as_u16();
+		IX_ADDR[IX_N] = address.as_u64();
+		IX_SUB[IX_N] = match sub_index {
+			Some(i) => i as i64,
+			None => -1,
+		};
+		IX_KEY0[IX_N] = key[0];
+		let written = IX_NEED == 0;
+		IX_RET_WRITTEN[IX_N] = written;
+		IX_N += 1;
+		if written {
+			Ok(PlanOutcome::Written)
+		} else {
+			IX_NEED -= 1;
+			Ok(PlanOutcome::NeedReindex)
+		}
+	}
+}
+pub(crate) fn stub_ix_remove(t: &IndexTable, key: &Key, sub_index: usize, _log: &mut LogWriter) -> Result<PlanOutcome> {
+	unsafe {
+		assert!(IX_N < 6, "verif: too many index operations");
+		IX_KIND[IX_N] = 2;
+		IX_TABLE[IX_N] = t.id.as_u16();
+		IX_SUB[IX_N] = sub_index as i64;
+		IX_KEY0[IX_N] = key[0];
+		IX_N += 1;
+	}
+	Ok(PlanOutcome::Written)
+}
+pub(crate) fn stub_trigger_reindex<'a, 'b>(
+	tables: RwLockUpgradableReadGuard<'a, Tables>,
+	reindex: RwLockUpgradableReadGuard<'b, Reindex>,
+	_path: &std::path::Path,
+) -> (RwLockUpgradableReadGuard<'a, Tables>, RwLockUpgradableReadGuard<'b, Reindex>) {
+	unsafe {
+		TRIG_N += 1;
+	}
+	(tables, reindex)
+}
+pub(crate) fn stub_new_value(_key: &TableKey, _tables: TablesRef, _val: &[u8], _log: &mut LogWriter, _stats: Option<&ColumnStats>) -> Result<Address> {
+	Ok(Address::from_u64(unsafe { NEW_ADDR }))
+}
+pub(crate) fn stub_existing_value<K, V: AsRef<[u8]>>(
+	_key: &TableKey,
+	_tables: TablesRef,
+	_address: Address,
+	_change: &Operation<K, V>,
+	_log: &mut LogWriter,
+	_stats: Option<&ColumnStats>,
+	_ref_counted: bool,
+) -> Result<(Option<PlanOutcome>, Option<Address>)> {
+	Ok(match unsafe { EXIST_OUT } {
+		0 => (Some(PlanOutcome::Written), None),
+		1 => (Some(PlanOutcome::Skipped), None),
+		2 => (None, Some(Address::from_u64(unsafe { NEW_ADDR }))),
+		_ => (None, None),
+	})
+}
+pub(crate) fn stub_contains(_key: &Key, _address: Address, _index: &IndexTable, _log: &LogWriter) -> Result<bool> {
+	Ok(unsafe { CONTAINS })
+}
+macro_rules! plan_harness {
+	($(#[$m:meta])* $name:ident, $body:expr) => {
+		#[kani::proof]
+		$(#[$m])*
+		#[kani::stub(crate::index::IndexTable::write_insert_plan, stub_ix_insert)]
+		#[kani::stub(crate::index::IndexTable::write_remove_plan, stub_ix_remove)]
+		#[kani::stub(super::HashColumn::trigger_reindex, stub_trigger_reindex)]
+		#[kani::stub(super::Column::write_new_value_plan, stub_new_value)]
+		#[kani::stub(super::Column::write_existing_value_plan, stub_existing_value)]
+		#[kani::stub(super::HashColumn::contains_partial_key_with_address, stub_contains)]
+		#[kani::stub(std::hash::RandomState::new, crate::verif_stubs::random_state_new)]
+		#[kani::stub(parking_lot::RawRwLock::lock_shared_slow, crate::verif_stubs::lock_shared_slow)]
+		#[kani::stub(parking_lot::RawRwLock::unlock_shared_slow, crate::verif_stubs::unlock_shared_slow)]
+		#[kani::stub(parking_lot::RawRwLock::lock_exclusive_slow, crate::verif_stubs::lock_exclusive_slow)]
+		#[kani::stub(parking_lot::RawRwLock::unlock_exclusive_slow, crate::verif_stubs::unlock_exclusive_slow)]
+		#[kani::stub(parking_lot::RawRwLock::lock_upgradable_slow, crate::verif_stubs::lock_upgradable_slow)]
+		#[kani::stub(parking_lot::RawRwLock::unlock_upgradable_slow, crate::verif_stubs::unlock_upgradable_slow)]
+		#[kani::stub(std::fmt::format, crate::verif_stubs::fmt_format)]
+		fn $name() {
+			$body
+		}
+	};
+}
+fn mk_hash_column(bits: u8, ref_counted: bool) -> HashColumn {
+	let path = std::path::PathBuf::new();
+	HashColumn {
+		col: 0,
+		tables: RwLock::new(Tables {
+			index: crate::index::verif_index::mk_table(0, bits),
+			value: Vec::new(),
+			ref_count: None,
+		}),
+		reindex: RwLock::new(Reindex { queue: VecDeque::new(), progress: AtomicU64::new(0) }),
+		ref_count_cache: None,
+		path,
+		preimage: false,
+		uniform_keys: false,
+		collect_stats: false,
+		ref_counted,
+		append_only: false,
+		salt: [0u8; 32],
+		// never touched (collect_stats is false) and never dropped: left uninitialised to keep allocation loops out of the harness
+		stats: unsafe { std::mem::MaybeUninit::uninit().assume_init() },
+		compression: Compress::new(crate::compress::CompressionType::NoCompression, u32::MAX),
+		db_version: crate::options::CURRENT_VERSION,
+	}
+}
+fn plan_reset(need: usize) {
+	unsafe {
+		IX_N = 0;
+		TRIG_N = 0;
+		IX_NEED = need;
+		NEW_ADDR = kani::any();
+		CONTAINS = kani::any();
+		EXIST_OUT = kani::any();
+	}
+	kani::assume(unsafe { EXIST_OUT } < 4);
+}
+// retry contract shared by write_reindex_plan_locked and write_plan_new: whenever the index answers NeedReindex a
+// bigger index is started and the insertion is retried there, so that on return the entry *is* in the current index
+fn check_retry(need: usize, address: u64, key0: u8) {
+	let (n, trig) = unsafe { (IX_N, TRIG_N) };
+	assert!(n == need + 1, "U15.retry.one_attempt_per_full_index_plus_the_successful_one");
+	assert!(trig == need, "U15.retry.growth_started_for_every_failed_attempt");
+	assert!(unsafe { IX_RET_WRITTEN[n - 1] }, "U15.retry.entry_is_in_current_index_on_return");
+	let a: usize = kani::any();
+	kani::assume(a < n);
+	assert!(unsafe { IX_KIND[a] } == 1 && unsafe { IX_ADDR[a] } == address && unsafe { IX_SUB[a] } == -1 && unsafe { IX_KEY0[a] } == key0, "U15.retry.every_attempt_inserts_this_entry_into_a_free_slot");
+}
+fn u15_reindex_plan(need: usize) {
+	let col: &'static HashColumn = Box::leak(Box::new(mk_hash_column(16, false)));
+	plan_reset(need);
+	let key: Key = kani::any();
+	let addr: u64 = kani::any();
+	// everything the harness builds is leaked: drops at the end of a harness are irrelevant to the claim
+	let overlays: &'static RwLock<crate::log::LogOverlays> = Box::leak(Box::new(RwLock::new(crate::log::LogOverlays::with_columns(0))));
+	let w: &'static mut crate::log::LogWriter<'static> = Box::leak(Box::new(crate::log::LogWriter::new(overlays, 7)));
+	let tl = col.tables.upgradable_read();
+	let rl = col.reindex.upgradable_read();
+	let r = ok(col.write_reindex_plan_locked(tl, rl, &key, Address::from_u64(addr), &mut *w));
+	match r {
+		None => assert!(false, "U15.reindex_plan.no_error"),
+		Some(outcome) => {
+			if unsafe { CONTAINS } {
+				// already migrated: not copied twice
+				assert!(unsafe { IX_N } == 0 && unsafe { TRIG_N } == 0 && matches!(outcome, PlanOutcome::Skipped), "U15.reindex_plan.already_present_is_skipped");
+			} else {
+				check_retry(need, addr, key[0]);
+				assert!(matches!(outcome, PlanOutcome::NeedReindex) == (need > 0), "U15.reindex_plan.reports_growth_to_caller");
+				assert!(matches!(outcome, PlanOutcome::Written) == (need == 0), "U15.reindex_plan.written_when_no_growth");
+			}
+		},
+	}
+}
+fn u15_plan_new(need: usize) {
+	let col: &'static HashColumn = Box::leak(Box::new(mk_hash_column(16, false)));
+	plan_reset(need);
+	let key: Key = kani::any();
+	let value = [0u8; 4];
+	// everything the harness builds is leaked: drops at the end of a harness are irrelevant to the claim
+	let overlays: &'static RwLock<crate::log::LogOverlays> = Box::leak(Box::new(RwLock::new(crate::log::LogOverlays::with_columns(0))));
+	let w: &'static mut crate::log::LogWriter<'static> = Box::leak(Box::new(crate::log::LogWriter::new(overlays, 7)));
+	let tl = col.tables.upgradable_read();
+	let rl = col.reindex.upgradable_read();
+	let r = ok(col.write_plan_new(tl, rl, &key, &value, &mut *w));
+	match r {
+		None => assert!(false, "U15.plan_new.no_error"),
+		Some((outcome, tl2, rl2)) => {
+			// the address indexed is the one the value was stored at
+			check_retry(need, unsafe { NEW_ADDR }, key[0]);
+			assert!(matches!(outcome, PlanOutcome::NeedReindex) == (need > 0), "U15.plan_new.reports_growth_to_caller");
+			std::mem::forget(tl2);
+			std::mem::forget(rl2);
+		},
+	}
+}
+fn u15_plan_existing(in_current_index: bool) {
+	let col: &'static HashColumn = Box::leak(Box::new(mk_hash_column(17, kani::any())));
+	plan_reset(0);
+	let key: Key = kani::any();
+	let sub: usize = kani::any();
+	kani::assume(sub < 64);
+	let old_index: &'static IndexTable = Box::leak(Box::new(crate::index::verif_index::mk_table(0, 16)));
+	// everything the harness builds is leaked: drops at the end of a harness are irrelevant to the claim
+	let overlays: &'static RwLock<crate::log::LogOverlays> = Box::leak(Box::new(RwLock::new(crate::log::LogOverlays::with_columns(0))));
+	let w: &'static mut crate::log::LogWriter<'static> = Box::leak(Box::new(crate::log::LogWriter::new(overlays, 7)));
+	let tl = col.tables.read();
+	let change: Operation<Key, RcValue> = Operation::Dereference(key);
+	let existing = Address::from_u64(kani::any());
+	let index: &IndexTable = if in_current_index { &tl.index } else { old_index };
+	let r = ok(col.write_plan_existing(&tl, &change, &mut *w, index, sub, existing));
+	let n = unsafe { IX_N };
+	match (r, unsafe { EXIST_OUT }) {
+		(None, _) => assert!(false, "U15.plan_existing.no_error"),
+		(Some(o), 0) => assert!(n == 0 && matches!(o, PlanOutcome::Written), "U15.plan_existing.value_updated_in_place_index_untouched"),
+		(Some(o), 1) => assert!(n == 0 && matches!(o, PlanOutcome::Skipped), "U15.plan_existing.skipped_index_untouched"),
+		(Some(o), 2) => {
+			// the value moved: the key's index entry must point at the new address; the confirmed slot is replaced only if
+			// it lives in the current index, otherwise a new entry is added there
+			assert!(n == 1 && unsafe { IX_KIND[0] } == 1 && unsafe { IX_ADDR[0] } == unsafe { NEW_ADDR } && unsafe { IX_KEY0[0] } == key[0], "U15.plan_existing.moved_value_reindexed_at_new_address");
+			assert!(unsafe { IX_TABLE[0] } == IndexTableId::new(0, 17).as_u16(), "U15.plan_existing.moved_value_indexed_in_current_index");
+			assert!(unsafe { IX_SUB[0] } == if in_current_index { sub as i64 } else { -1 }, "U15.plan_existing.replaces_confirmed_slot_only_in_current_index");
+			assert!(matches!(o, PlanOutcome::Written), "U15.plan_existing.moved_outcome");
+		},
+		(Some(o), _) => {
+			// the value is gone: its index slot goes in the same plan, from the index it was found in
+			assert!(n == 1 && unsafe { IX_KIND[0] } == 2 && unsafe { IX_SUB[0] } == sub as i64 && unsafe { IX_KEY0[0] } == key[0], "U15.plan_existing.removed_value_unindexed_in_same_plan");
+			assert!(unsafe { IX_TABLE[0] } == index.id.as_u16(), "U15.plan_existing.unindexed_from_the_index_it_was_found_in");
+			assert!(matches!(o, PlanOutcome::Written), "U15.plan_existing.removed_outcome");
+		},
+	}
+	std::mem::forget(tl);
+}
+plan_harness!(#[kani::unwind(5)] u15_reindex_plan_need0, u15_reindex_plan(0));
+plan_harness!(#[kani::unwind(5)] u15_reindex_plan_need1, u15_reindex_plan(1));
+plan_harness!(#[kani::unwind(5)] u15_reindex_plan_need2, u15_reindex_plan(2));
+plan_harness!(#[kani::unwind(5)] u15_plan_new_need0, u15_plan_new(0));
+plan_harness!(#[kani::unwind(5)] u15_plan_new_need1, u15_plan_new(1));
+plan_harness!(#[kani::unwind(5)] u15_plan_new_need2, u15_plan_new(2));
+plan_harness!(#[kani::unwind(5)] u15_plan_existing_current, u15_plan_existing(true));
+plan_harness!(#[kani::unwind(5)] u15_plan_existing_old, u15_plan_existing(false));
+
 /*@@GENERATED:column@@*/
